@@ -236,11 +236,28 @@ func cmdCheck(args []string) int {
 			toolErrs = append(toolErrs, r.Err.Error())
 		}
 	}
+	// a function with a failing obligation assumes that obligation afterwards, which can
+	// make the rest of its script contradictory: vacuity reports are only meaningful for
+	// functions all of whose real obligations hold
+	funcFails := map[string]bool{}
+	for _, o := range all {
+		if !o.Cover && !o.MustFail && o.Result != "unsat" {
+			funcFails[o.Func] = true
+		}
+	}
 	for _, o := range all {
 		generated[o.Name] = o
 		solverTime += o.TimeS
 		if dump != "" {
 			dumpQuery(dump, o)
+		}
+		if (o.Cover || o.MustFail) && funcFails[o.Func] {
+			if o.Cover {
+				covers++
+			} else {
+				canaries++
+			}
+			continue
 		}
 		switch {
 		case o.Cover:
